@@ -1350,6 +1350,10 @@ struct ssl
     psSizeL_t tls13PadLen;
     psSizeL_t tls13BlockSize;
 #endif
+    /* Client: the cipherSpec[] list given by the application (length 0 =
+       library default list).  ServerHello.cipher_suite must be one of them. */
+    psCipher16_t *clientOfferedSuites;
+    uint8_t clientOfferedSuitesLen;
     /* This is shared between all TLS versions. */
     uint16_t supportedSigAlgs[TLS_MAX_SIGNATURE_ALGORITHMS];
     psSize_t supportedSigAlgsLen;
@@ -2201,6 +2205,9 @@ extern psRes_t chooseCipherSuite(ssl_t *ssl, unsigned char *listStart,
         int32 listLen);
 extern const sslCipherSpec_t *sslGetDefinedCipherSpec(uint16_t id);
 extern const sslCipherSpec_t *sslGetCipherSpec(const ssl_t *ssl, uint16_t id);
+extern int32_t sslSetClientOfferedSuites(ssl_t *ssl,
+        const psCipher16_t cipherSpec[], uint8_t cipherSpecLen);
+extern psBool_t sslClientOfferedSuite(const ssl_t *ssl, uint16_t id);
 extern int32_t sslGetCipherSpecListLen(const ssl_t *ssl);
 extern int32_t sslGetCipherSpecList(ssl_t *ssl, unsigned char *c, int32 len,
                                     int32 addScsv);
